@@ -23,13 +23,17 @@ func c10GoatAppProbe(o *Out) {
 		when     string // none | before | after
 		factory  bool
 		wantSelf bool
+		ownDP    bool // Params.DP left nil: the application makes its provider itself
 	}
 	variants := []variant{
-		{"no explicit definition", "none", false, true},
-		{"explicit instance before NewGoatApp", "before", false, false},
-		{"explicit factory before NewGoatApp", "before", true, false},
-		{"explicit instance after NewGoatApp", "after", false, false},
-		{"explicit factory after NewGoatApp", "after", true, false},
+		{"no explicit definition", "none", false, true, false},
+		{"explicit instance before NewGoatApp", "before", false, false, false},
+		{"explicit factory before NewGoatApp", "before", true, false, false},
+		{"explicit instance after NewGoatApp", "after", false, false, false},
+		{"explicit factory after NewGoatApp", "after", true, false, false},
+		{"no explicit definition, provider made by the application", "none", false, true, true},
+		{"explicit instance after NewGoatApp, provider made by the application", "after", false, false, true},
+		{"explicit factory after NewGoatApp, provider made by the application", "after", true, false, true},
 	}
 	for _, v := range variants {
 		desc := map[string]interface{}{"op": "goatapp-self-registration", "variant": v.name}
@@ -57,7 +61,11 @@ func c10GoatAppProbe(o *Out) {
 					return
 				}
 			}
-			a, err := goatapp.NewMockupApp(goatapp.Params{DP: dp})
+			params := goatapp.Params{DP: dp}
+			if v.ownDP {
+				params = goatapp.Params{}
+			}
+			a, err := goatapp.NewMockupApp(params)
 			if err != nil {
 				o.Fail("precedence", v.name+": NewGoatApp failed: "+err.Error(), "app-new", desc)
 				return
